@@ -129,11 +129,18 @@ def py_wrap_violation(text, width, indent, offset):
     if out.split() != text.split():
         return (f"wrap({text!r}, {width}, indent={indent}, offset={offset}) = {out!r}: words {out.split()} != "
                 f"{text.split()}")
+    for i, line in enumerate(out.split("\n")):
+        lim = width - ((indent if offset is None else offset) if i == 0 else 0)
+        if len(line) > lim and len(line.split()) > 1:
+            return (f"wrap({text!r}, {width}, indent={indent}, offset={offset}) = {out!r}: line {i} {line!r} has "
+                    f"{len(line)} > {lim} columns and is not a single unbreakable word")
     return None
 
 
 def wrap_task(task):
-    """all texts of one (length, prefix, width, indent, offset) partition: words(wrap(t)) == words(t)"""
+    """all texts of one (length, prefix, width, indent, offset) partition:
+       words(wrap(t)) == words(t)   and   every output line fits the width (first line: width - offset) unless it
+       holds a single unbreakable word"""
     wrap, _ = load_wrap(task.get("source"))
     L, prefix, width, indent, offset = task["L"], task["prefix"], task["width"], task["indent"], task["offset"]
     s = bstr.SymStr(list(prefix) + [z3.Int(f"w{i}") for i in range(len(prefix), L)] + list(task.get("suffix", ())))
@@ -143,10 +150,14 @@ def wrap_task(task):
 
     def run():
         out = wrap(s, width, indent=indent, offset=offset)
-        return words(out), words(s)
-    for ctx, (wo, ws) in bstr.explore(run, base):
+        lines = out.split("\n")
+        per = [ln.split() for ln in lines]            # forks on whitespace; lengths and word counts are concrete per path
+        fits = all(len(ln) <= width - (offset if i == 0 else 0) or len(ws_) <= 1
+                   for i, (ln, ws_) in enumerate(zip(lines, per)))
+        return [w for ws_ in per for w in ws_], words(s), fits
+    for ctx, (wo, ws, fits) in bstr.explore(run, base):
         leaves += 1
-        phi = (len(wo) == len(ws)) and bstr.b_and([bstr.eq_chars(a.c, b.c) for a, b in zip(wo, ws)])
+        phi = fits and (len(wo) == len(ws)) and bstr.b_and([bstr.eq_chars(a.c, b.c) for a, b in zip(wo, ws)])
         ok, m = ctx.valid(phi)
         if not ok:
             return leaves, ctx.checks, ctx.solver_s, bstr.model_string(m, s), task
